@@ -20,7 +20,6 @@ R2D = 180.0 / math.pi
 DSPR_MAX = 81.03
 
 KS = [1e-6, 1e-3, 0.5, 2.0, 1e3, 1e6]
-K_LABEL = {1e-6: "1e-6", 1e-3: "1e-3", 0.5: "0.5", 2.0: "2", 1e3: "1e3", 1e6: "1e6"}
 ANGLE_LABELS = ["dd", "-dd", "7.3", "-33", "180", "360", "725.5", "1e-3"]
 EXPRS = ["2*hs", "0.13*hs+0.02", "1.0"]
 DEPTH = 7.0
@@ -88,6 +87,10 @@ class Ref:
             self.sw_rad = self.m0 * self.m2 / self.m1 ** 2 - 1.0
             # frequency standard deviation of the normalised spectrum (what a "Gaussian width" in Hz is)
             self.gw_rad_norm = self.m2 / self.m0 - (self.m1 / self.m0) ** 2
+            # the radicand as coded: m0/Tm02^2 - m0^2/Tm01^2 with m0 = (hs/4)^2 (tail included), Tm from the moments
+            r = self.etot / self.m0
+            self.gw_rad_lib = r * self.m2 - (r * self.m1) ** 2
+            self.gw_rad_lib_scale = r * self.m2 + (r * self.m1) ** 2
         # direction moments
         s = np.zeros(self.N)
         c = np.zeros(self.N)
@@ -320,8 +323,8 @@ def check_bounds(f, d, E, L, R, F):
         v = L["gw"]
         ok = ~np.isnan(v) | (R.gw_rad_norm < RAD_DONTCARE)
         F.add(ok, "gw", "bounds:real", "variance-above-m0m2/m1^2",
-              lambda i: "gw is NaN for a spectrum with hs=%r whose frequency standard deviation is %r Hz (m2 - m1^2 = %r < 0)" % (
-                  float(R.hs[i]), float(math.sqrt(R.gw_rad_norm[i])), float(R.m2[i] - R.m1[i] ** 2)))
+              lambda i: "gw is NaN for a spectrum with hs=%r whose frequency standard deviation is %r Hz (m0/Tm02^2 - m0^2/Tm01^2 = %r < 0)" % (
+                  float(R.hs[i]), float(math.sqrt(R.gw_rad_norm[i])), float(R.gw_rad_lib[i])))
 
 
 def cmp_radicand(F, stat, clause, pred, a, b, scale, dontcare, what):
@@ -385,7 +388,7 @@ def check_scale(L0, L1, R0, k, F, twins=None):
     # Gaussian width: a frequency spread [the library's own gaussian() takes it in Hz]
     if valid(L0, "gw") and valid(L1, "gw"):
         a, b = L0["gw"], L1["gw"]
-        F.add(rel_ok(b, a, 1e-6), "gw", "scale:unchanged", "energy-dependent",
+        F.add(rel_ok(b, a, 1e-6) | (R0.gw_rad_norm < RAD_DONTCARE), "gw", "scale:unchanged", "energy-dependent",
               lambda i: "gw(S)=%r but gw(k*S)=%r for k=%g: the width of the same spectral shape depends on its energy" % (float(a[i]), float(b[i]), k))
     # directions
     if valid(L0, "dm") and valid(L1, "dm"):
@@ -421,8 +424,9 @@ def check_relabel(L0, L1, R0, shift, label, ascending, F, twins=None):
     if valid(L0, "gw") and valid(L1, "gw"):
         a, b = L0["gw"], L1["gw"]
         with np.errstate(all="ignore"):
-            sc = np.abs(R0.m2) + R0.m1 ** 2
-            ok = (np.abs(a ** 2 - b ** 2) <= 1e-9 * sc) | both_nan(a, b) | (np.abs(R0.m2 - R0.m1 ** 2) <= 1e-8 * sc)
+            # don't-care where either reading of the radicand (m2 - m1^2 as coded, m2/m0 - (m1/m0)^2 as a width in Hz) cancels to ~0
+            cancel = (np.abs(R0.gw_rad_lib) <= 1e-6 * R0.gw_rad_lib_scale) | (R0.gw_rad_norm < RAD_DONTCARE)
+            ok = (np.abs(a ** 2 - b ** 2) <= 1e-6 * np.maximum(a ** 2, b ** 2)) | both_nan(a, b) | cancel
         F.add(ok, "gw", "relabel:unchanged", pred, lambda i: "gw=%r before, %r after relabelling directions by %s" % (float(a[i]), float(b[i]), label))
     if valid(L0, "alpha") and valid(L1, "alpha"):
         a, b = L0["alpha"], L1["alpha"]
@@ -698,7 +702,7 @@ def spectra_for(it):
     return E[lo:hi], sizes
 
 
-CHUNK = 20000
+CHUNK = 10000
 
 
 def work_items(tier, seed):
@@ -719,8 +723,8 @@ def work_items(tier, seed):
     small = [(2, 2), (2, 3), (3, 2), (2, 4), (4, 2), (3, 3)]
     for nf, nd in small:
         cells = nf * nd
-        for fam in ("log_lo_%d", "log_hi_%d") + (("lin_at_%d",) if thorough or cells == 6 else ()):
-            alpha = a4 if (thorough and cells <= 8) else a3
+        for fam in ("log_lo_%d", "log_hi_%d") + (("lin_at_%d",) if thorough else ()):
+            alpha = a4 if (thorough and (cells <= 6 or (cells == 8 and fam.startswith("log_hi")))) else a3
             add("product", fam % nf, nd, alpha)
     for nf, nd in ((4, 6), (5, 8)):
         for fam in ("irr_%d", "irr_hi_%d") + (("log_hi_%d", "lin_at_%d") if thorough else ()):
@@ -832,7 +836,7 @@ def run_item(it):
 def run(rep, tier, seed, parts=None):
     common.load_wavespectra()
     rep.rule = ("every non-degenerate spectrum (energy in >=2 frequencies and >=2 directions) among: all assignments of a 3-value "
-                "(thorough: 4-value up to 8 cells) alphabet to the bins of 2x2, 2x3, 3x2, 2x4, 4x2, 3x3 grids; on 4x6 and 5x8 grids the "
+                "(thorough: 4-value up to 6 cells, and 8 cells on the grid ending above 0.333 Hz) alphabet to the bins of 2x2, 2x3, 3x2, 2x4, 4x2, 3x3 grids; on 4x6 and 5x8 grids the "
                 "complete structured families (constants, every impulse pair with every height pair, ramps, checkerboards) and every "
                 "single bump / pair of bumps (thorough: triple on 4x6) with every height assignment, with and without a background; "
                 "frequency grids ending below, at and above 0.333 Hz. Each spectrum is evaluated as is, times each k in "
